@@ -98,16 +98,22 @@ Ltac split_pairs :=
          | x : (_ * _)%type |- _ => destruct x
          end.
 
-(* comparisons the source may have written either way round *)
+(* leaves: equal results, possibly up to integer arithmetic; or a combination of branch conditions that
+   cannot occur (comparisons the source may have written either way round) *)
+Ltac meq_leaf :=
+  first [ reflexivity | lia | congruence | progress f_equal; meq_leaf ].
 Ltac mclose :=
-  first
-    [ reflexivity
-    | congruence
-    | exfalso; lia
-    | repeat (f_equal; try reflexivity); first [lia | congruence] ].
+  first [ reflexivity | congruence | exfalso; lia | meq_leaf ].
 
+(* case analysis on the blocking term; a combination of integer conditions that cannot occur is
+   discarded at once (the two sides may test the same thing in different words) *)
 Ltac case_on s :=
-  first [ is_var s; destruct s | destruct s eqn:? ].
+  first [ is_var s; destruct s
+        | let T := type of s in
+          lazymatch T with
+          | bool => destruct s eqn:?; try (exfalso; lia)
+          | _ => destruct s eqn:?
+          end ].
 
 (* msim: goal  m1 ds = m2 ds.  `reshapes` is a tactic that, given the two loop terms (left, right), may
    replace the left one (used when the two state tuples are arranged differently). *)
